@@ -110,6 +110,10 @@ type World struct {
 	// (scheduled runs: the lock-grant stamp of the latest acknowledged write
 	// transaction and the current event sequence number).
 	SnapInfo func() (int, int)
+	// FDLimit is the simulated RLIMIT_NOFILE: an open beyond it fails with
+	// EMFILE (0 = unlimited).  nutsdb needs a handful of descriptors at a
+	// time, whatever the number of segments.
+	FDLimit int
 
 	Stats Stats
 }
@@ -141,7 +145,7 @@ var W *World
 //go:norace
 func NewWorld(seed uint64) *World {
 	base := NewRng(seed)
-	w := &World{Seed: seed, StepID: -1, InFlight: -1}
+	w := &World{Seed: seed, StepID: -1, InFlight: -1, FDLimit: DefaultFDLimit}
 	w.Stats.init()
 	w.Log = &EventLog{}
 	w.Clock = newClock(w, base.Derive("clock"))
@@ -168,6 +172,9 @@ func Probe(name string) {
 		W.Stats.Probes[name]++
 	}
 }
+
+// DefaultFDLimit is the descriptor limit of every simulated process.
+const DefaultFDLimit = 24
 
 // BeginStep / EndStep delimit one program step for fault addressing.
 //
